@@ -69,6 +69,46 @@ theorem comps_total (t y mo : Int) :
     repeat' split
     all_goals omega
 
+/-! AbsoluteDuration -/
+
+theorem absdur_reduce_roundtrip' (days seconds micros millis minutes hours weeks years months : Int) :
+    rebuildAbs (reduceDur (AbsDur.new days seconds micros millis minutes hours weeks years months)) =
+      AbsDur.new days seconds micros millis minutes hours weeks years months := by
+  unfold rebuildAbs reduceDur
+  simp only
+  unfold AbsDur.new
+  simp only [argTotal_base, base_total_ofTotal]
+
+theorem abs_comps_total (t y mo : Int) :
+    argTotal (absState t y mo).rdays (absState t y mo).rsecs (absState t y mo).micros 0
+      (absState t y mo).minutes (absState t y mo).hours (absState t y mo).weeks = absI t := by
+  unfold argTotal DurState.rsecs DurState.minutes DurState.hours absState sgn
+  simp only
+  have h0 : 0 ≤ absI t := by unfold absI; split <;> omega
+  generalize absI t = a at h0 ⊢
+  unfold absI
+  repeat' split
+  all_goals omega
+
+theorem abs_comps_nonneg (t y mo : Int) :
+    let s := absState t y mo
+    0 ≤ s.years ∧ 0 ≤ s.months ∧ 0 ≤ s.weeks ∧ 0 ≤ s.rdays ∧ s.rdays < 7 ∧ 0 ≤ s.hours ∧ s.hours < 24 ∧
+      0 ≤ s.minutes ∧ s.minutes < 60 ∧ 0 ≤ s.rsecs ∧ s.rsecs < 60 ∧ 0 ≤ s.micros ∧ s.micros < 1000000 ∧ 0 ≤ s.days := by
+  intro s
+  have h0 : 0 ≤ absI t := by unfold absI; split <;> omega
+  have hy : 0 ≤ absI y := by unfold absI; split <;> omega
+  have hm : 0 ≤ absI mo := by unfold absI; split <;> omega
+  have hd : 0 ≤ absI (absI t / 1000000 / 86400 + y * 365 + mo * 30) := by unfold absI; split <;> omega
+  simp only [s, DurState.rsecs, DurState.minutes, DurState.hours, absState, sgn]
+  generalize absI t = a at h0 hd ⊢
+  generalize absI y = ay at hy ⊢
+  generalize absI mo = am at hm ⊢
+  generalize absI (a / 1000000 / 86400 + y * 365 + mo * 30) = ad at hd ⊢
+  unfold absI
+  refine ⟨hy, hm, by omega, by omega, by omega, ?_, ?_, ?_, ?_, ?_, ?_, by omega, by omega, hd⟩
+  all_goals (repeat' split)
+  all_goals omega
+
 theorem iv_roundtrip' (f : DT → DT) (same : Bool) (s e : DT) (a : Bool) (hs : f s = s) (he : f e = e) :
     rebuildIv f same (reduceIv (mkIv same s e a)) = mkIv same s e a := by
   unfold rebuildIv reduceIv mkIv
